@@ -157,6 +157,28 @@ class Scenario:
         self.form = form or ("m" if rng.random() < 0.5 else "ab")
         self.stds = []
 
+    def rotate_tracking(self, rng=None):
+        """give every signal path its own electrical length: the receiver of
+        each row and the source of each column get an arbitrary phase (for the
+        column types, separately in every column's error box).  Forward and
+        reverse tracking terms then differ by whole radians, as they do in an
+        instrument whose two directions take different routes."""
+        rng = rng or self.rng
+        for en in self.enet:
+            if self.ctype in physics.COLUMN_TYPES:
+                cols = []
+                for (el, er, em, et) in en.cols:
+                    ph = np.exp(2j * np.pi * rng.random(er.shape[0]))
+                    cols.append((el, ph[:, None] * er, em,
+                                 et * np.exp(2j * np.pi * rng.random())))
+                en.cols = cols
+            else:
+                en.Er = np.exp(2j * np.pi * rng.random(en.Er.shape[0]))[
+                    :, None] * en.Er
+                en.Et = en.Et * np.exp(2j * np.pi * rng.random(
+                    en.Et.shape[1]))[None, :]
+        self.rotated = True
+
     # ------------------------------------------------------------------
     # measurements
     # ------------------------------------------------------------------
